@@ -23,7 +23,7 @@ Section C06.
      invalid `errors` -> ValueError; ignore/replace -> no 'E'/'S' (and 'F' if that was the last pass). *)
   Theorem C06_first_nonfinite_policy d o t s p v1 k :
     min_iter o <= max_iter o ->
-    py_pos (List.length (status s)) t = Some p -> offset o = 0 ->
+    py_pos (List.length (status s)) t = Some p -> feasible d (List.length (status s)) p = true -> offset o = 0 ->
     is_raise (errors o) && negb (all_finite (get_check d (vals_of s) p)) = false ->
     before t (errors o) (catch_first o) 0%nat (vals_of s) = (v1, None) ->
     (S k <= Z.to_nat (max_iter o))%nat ->
@@ -44,13 +44,13 @@ Section C06.
         (mkState v' (upd p Failed (status s)) (upd p (Z.of_nat (S k)) (iters s)) lg',
          if fail_raise o then Raise NonConvergenceError else Ret false)
     end.
-  Proof. intros H1 H2 H3 H4 H5. exact (first_nonfinite_policy num sub absf ltb isfin zero ev before after d o t s p v1 H1 H2 H3 H4 H5 k). Qed.
+  Proof. intros H1 H2 H3 H4 H5 H6. exact (first_nonfinite_policy num sub absf ltb isfin zero ev before after d o t s p v1 H1 H2 H3 H4 H5 H6 k). Qed.
 
   (* errors='ignore', complete rule: '.' at the first pass >= max(1,min_iter) that is JUDGED (its own and the previous
      check vector finite) and converged; otherwise 'F' with iterations = max_iter.  No finiteness assumption. *)
   Theorem C06_ignore_policy d o t s p v1 :
     min_iter o <= max_iter o ->
-    py_pos (List.length (status s)) t = Some p -> offset o = 0 ->
+    py_pos (List.length (status s)) t = Some p -> feasible d (List.length (status s)) p = true -> offset o = 0 ->
     is_raise (errors o) && negb (all_finite (get_check d (vals_of s) p)) = false ->
     before t (errors o) (catch_first o) 0%nat (vals_of s) = (v1, None) ->
     errors o = EIgnore ->
@@ -77,7 +77,7 @@ Section C06.
   (* an exception inside an evaluation pass: SolutionError chained to it; 'E' + pass number iff errors='raise' *)
   Theorem C06_ev_exception_surfaces d o t s p v1 k v' c :
     min_iter o <= max_iter o ->
-    py_pos (List.length (status s)) t = Some p -> offset o = 0 ->
+    py_pos (List.length (status s)) t = Some p -> feasible d (List.length (status s)) p = true -> offset o = 0 ->
     is_raise (errors o) && negb (all_finite (get_check d (vals_of s) p)) = false ->
     before t (errors o) (catch_first o) 0%nat (vals_of s) = (v1, None) ->
     (S k <= Z.to_nat (max_iter o))%nat ->
@@ -88,21 +88,21 @@ Section C06.
      then mkState v' (upd p ErrorSt (status s)) (upd p (Z.of_nat (S k)) (iters s)) (log s ++ [EvBefore t] ++ pass_events t 1 (S k))
      else mkState v' (status s) (iters s) (log s ++ [EvBefore t] ++ pass_events t 1 (S k)),
      Raise (SolutionError (Some c))).
-  Proof. intros H1 H2 H3 H4 H5. exact (ev_exception_surfaces num sub absf ltb isfin zero ev before after d o t s p v1 H1 H2 H3 H4 H5 k v' c). Qed.
+  Proof. intros H1 H2 H3 H4 H5 H6. exact (ev_exception_surfaces num sub absf ltb isfin zero ev before after d o t s p v1 H1 H2 H3 H4 H5 H6 k v' c). Qed.
 
   (* an exception in the pre-hook: SolutionError chained to it, nothing recorded *)
   Theorem C06_before_exception_surfaces d o t s p v' c :
     min_iter o <= max_iter o ->
-    py_pos (List.length (status s)) t = Some p -> offset o = 0 ->
+    py_pos (List.length (status s)) t = Some p -> feasible d (List.length (status s)) p = true -> offset o = 0 ->
     is_raise (errors o) && negb (all_finite (get_check d (vals_of s) p)) = false ->
     before t (errors o) (catch_first o) 0%nat (vals_of s) = (v', Some c) ->
     solve_t_M d o t s = (mkState v' (status s) (iters s) (log s ++ [EvBefore t]), Raise (SolutionError (Some c))).
-  Proof. intros H1 H2 H3. exact (before_exception_surfaces num sub absf ltb isfin zero ev before after d o t s p H1 H2 H3 v' c). Qed.
+  Proof. intros H1 H2 H3 H4. exact (before_exception_surfaces num sub absf ltb isfin zero ev before after d o t s p H1 H2 H3 H4 v' c). Qed.
 
   (* pre-existing non-finite check values under 'raise': rejected before any hook or pass, nothing changes *)
   Theorem C06_preexisting_nonfinite_rejected d o t s p :
     min_iter o <= max_iter o ->
-    py_pos (List.length (status s)) t = Some p -> offset o = 0 ->
+    py_pos (List.length (status s)) t = Some p -> feasible d (List.length (status s)) p = true -> offset o = 0 ->
     errors o = ERaise -> all_finite (get_check d (vals_of s) p) = false ->
     solve_t_M d o t s = (mkState (vals_of s) (status s) (iters s) (log s), Raise (SolutionError None)).
   Proof. exact (preexisting_nonfinite_rejected num sub absf ltb isfin zero ev before after d o t s p). Qed.
